@@ -189,8 +189,7 @@ ROLE_SETTERS = [
 ]
 ROLE_TARGETS = [r[0] for r in ROLE_SETTERS] + [
     "RangeDimension(linked).link_data_array(array)", "RangeDimension(linked).link_data_frame(frame)",
-    "SetDimension(linked).link_data_frame(frame)", "SetDimension(linked).link_data_array(array)",
-    "RangeDimension.link_data_array(array)", "SetDimension.link_data_frame(frame)"]
+    "SetDimension(linked).link_data_frame(frame)", "SetDimension(linked).link_data_array(array)"]
 
 
 def _targets():
@@ -705,6 +704,10 @@ def _calls():
             ("pr", "Property", "value_origin", "vo", None), ("s", "Section", "repository", "repo", None),
             ("s", "Section", "reference", "ref", None), ("s", "Section", "type", "kind", "t"),
             ("b", "Block", "definition", "some text", None), ("t", "Tag", "type", "kind", "t")):
+        if back is None:
+            # an accepted call is undone by assigning another valid value (not None): the refusals that follow meet
+            # an attribute that HAS a value
+            back = "s" if attr == "unit" else "previous " + good if isinstance(good, str) else good + 1
         add("%s.%s=" % (cls, attr), lambda c, key=key, attr=attr, **kw: setattr(c[key], attr, kw["value"]),
             lambda c, good=good: dict(value=good), lambda c, key=key, attr=attr, back=back: setattr(c[key], attr, back))
     add("Entity.force_updated_at", lambda c, **kw: c["da"].force_updated_at(**kw),
@@ -771,6 +774,7 @@ CORE = ["list:nul-str:3", "scalar:nul-str", "list:units:3", "list:surrogate-str:
         "scalar:int", "scalar:str", "scalar:none", "scalar:object", "scalar:float", "scalar:true", "scalar:complex",
         "range:3", "dict", "set", "lying-sequence",
         "entity:da", "entity:da2", "entity:t", "entity:b", "entity:s", "entity:df",
+        "entity:ofd", "entity:off", "entity:ofs", "entity:dead_da",
         "list:entities:own+foreign", "list:entities:own+kind", "rows:bad-type", "rows:obj", "coldict:bad-type"]
 assert all(s in SPELLING_INDEX for s in CORE), [s for s in CORE if s not in SPELLING_INDEX]
 
